@@ -41,6 +41,7 @@ def _key_features(lam: ast.AST) -> Optional[List[Tuple[str, str]]]:
 def run(ctx: Ctx) -> RuleResult:
     repo = ctx.repo
     res = RuleResult('R-LEX-PRECEDENCE', 'terminal order = documented order, carried unchanged into the regex alternation; keyword exception guarded')
+    res.default_props = ['C07', 'C14']
     init = repo.func('lark.lexer:BasicLexer.__init__')
     site = '%s %s' % (init.loc(), init.qual)
     sorts = [n for n in init.body_nodes() if isinstance(n, ast.Call) and ((isinstance(n.func, ast.Attribute) and n.func.attr == 'sort')
@@ -376,6 +377,46 @@ def run(ctx: Ctx) -> RuleResult:
         res.finding(grw, parsed[0] if parsed else grw.node, 'get_regexp_width measures %s but compiles %s: with Unicode categories (regex module) '
                     'the width is wrong, and width is the second precedence key' % (
                         norm(parsed[0].args[0]) if parsed else '?', [norm(c.args[0]) for c in compiled]), construct='width-expr')
+    # ---- alternatives inside one terminal: joined longest-first (re's alternation takes the first branch that matches) ----------------------
+    te = repo.func('lark.load_grammar:TerminalTreeToPattern.expansions')
+    srt = [c for c in te.body_nodes() if isinstance(c, ast.Call) and ((isinstance(c.func, ast.Attribute) and c.func.attr == 'sort') or norm(c.func) == 'sorted')]
+    oka = len(srt) == 1
+    whya = 'the alternatives are not sorted before they are joined'
+    if oka:
+        keyk = next((k.value for k in srt[0].keywords if k.arg == 'key'), None)
+        rev = any(k.arg == 'reverse' and isinstance(k.value, ast.Constant) and k.value.value is True for k in srt[0].keywords)
+        oka = isinstance(keyk, ast.Lambda) and isinstance(keyk.body, ast.Tuple) and len(keyk.body.elts) >= 2
+        whya = 'the sort key is %s' % (norm(keyk) if keyk is not None else None)
+        if oka:
+            xv = keyk.args.args[0].arg
+
+            def comp(e):
+                neg_ = isinstance(e, ast.UnaryOp) and isinstance(e.op, ast.USub)
+                return (norm(e.operand) if neg_ else norm(e)), (neg_ != rev)     # (text, descending?)
+            parts = [comp(e) for e in keyk.body.elts]
+            oka = parts[0] == ('%s.max_width' % xv, True) and parts[1] == ('%s.min_width' % xv, True)
+            whya = 'the alternatives are ordered by %s, expected widest maximum first, then widest minimum' % [('-' if d else '') + t for t, d in parts]
+            if oka:
+                # the sorted list is what is joined, in that order
+                joined = [c for c in te.body_nodes() if isinstance(c, ast.Call) and isinstance(c.func, ast.Attribute) and c.func.attr == 'join' and const_str(c.func.value) == '|']
+                oka = len(joined) == 1 and srt[0].lineno < joined[0].lineno
+                whya = 'the alternatives are joined before they are sorted'
+    res.ob('%s %s' % (te.loc(), te.qual), 'the alternatives of one terminal are joined widest first (max_width, then min_width, descending)', oka, props=['C07', 'C14', 'C01'])
+    if not oka:
+        res.finding(te, srt[0] if srt else te.node, 'the alternatives of a terminal are not joined longest-first (%s): `"if" | /i[a-z]*/` compiles to a regexp whose '
+                    'first branch wins although a later one matches more, so the terminal no longer matches what it denotes' % whya, construct='alternatives-order',
+                    props=['C07', 'C14', 'C01'])
+    # ---- keyword exception: every string terminal is compared with every regexp terminal (no early exit from the collecting loops) ---------
+    cu = repo.func('lark.lexer:_create_unless')
+    inner_loops = [l for l in cu.body_nodes() if isinstance(l, ast.For) and any(isinstance(a, ast.For) for a in ancestors(l))]
+    outer_loops = [l for l in cu.node.body if isinstance(l, ast.For)]
+    exits = [x for l in inner_loops + outer_loops for x in ast.walk(l) if isinstance(x, (ast.Break, ast.Return))]
+    okx = bool(inner_loops) and not exits
+    res.ob('%s %s' % (cu.loc(), cu.qual), 'the loops that collect the keyword exceptions have no early exit (every pair of terminals is examined)', okx)
+    if not okx:
+        res.finding(cu, exits[0] if exits else cu.node, '_create_unless leaves a collecting loop early (%s): string terminals after the first one that is skipped are '
+                    'never registered as exceptions of the regexp terminal -- keywords are lexed as identifiers' % (type(exits[0]).__name__.lower() if exits else 'loops not found'),
+                    construct='unless:early-exit')
     # ---- %ignore: each statement ignores one name ----------------------------------------------------------------------------
     # (a terminal given by name is ignored under that name and nothing is defined; anything else gets one fresh __IGNORE_n definition)
     from ..exprs import path_counts
